@@ -1085,6 +1085,73 @@ pub fn program(p: &mut Prng) -> String {
     Gen::new(p).program()
 }
 
+/// Marker that makes `analyse` draw the values of external constants from the boundary values of
+/// their types instead of small numbers (which array sizes need).
+pub const WIDE_CONSTS_MARKER: &str = "// wide constants";
+
+/// Boundary values of an integer type, as i64 bit patterns (u64::MAX is -1).
+pub fn boundary_values(ty: &str) -> Vec<i64> {
+    match ty {
+        "u8" => vec![0, 1, 2, 127, 128, 254, 255],
+        "u16" => vec![0, 1, 255, 256, 32767, 32768, 65534, 65535],
+        "u32" => vec![0, 1, 65536, (1 << 31) - 1, 1 << 31, u32::MAX as i64 - 1, u32::MAX as i64],
+        "u64" | "usize" => vec![0, 1, 2, u32::MAX as i64, 1 << 32, i64::MAX, i64::MIN, -2, -1],
+        "i8" => vec![-128, -127, -1, 0, 1, 126, 127],
+        "i16" => vec![-32768, -1, 0, 1, 32767],
+        "i32" => vec![i32::MIN as i64, i32::MIN as i64 + 1, -1, 0, 1, i32::MAX as i64 - 1, i32::MAX as i64],
+        "i64" => vec![i64::MIN, i64::MIN + 1, -1, 0, 1, i64::MAX - 1, i64::MAX],
+        _ => vec![0, 1],
+    }
+}
+
+/// Constant arithmetic at the boundaries of the number types: chains of `+`, `-`, `max`, `min`
+/// over boundary literals, external constants (whose values are boundary values too) and earlier
+/// constants; the constants are only used as values, never as sizes.
+pub fn const_arith_program(p: &mut Prng) -> String {
+    let ty = *p.pick(&["u64", "u64", "usize", "i64", "u32", "i32", "u16", "u8", "i8"]);
+    let unsigned = ty.starts_with('u');
+    let n = p.range(1, 5) as usize;
+    let mut out = vec![WIDE_CONSTS_MARKER.to_string()];
+    let mut names: Vec<String> = vec![];
+    let lit = |p: &mut Prng| -> String {
+        let v = *p.pick(&boundary_values(ty));
+        if unsigned {
+            format!("{}{ty}", v as u64 & if ty == "u64" || ty == "usize" { u64::MAX } else { u64::MAX >> (64 - ty[1..].parse::<u32>().unwrap_or(64)) })
+        } else if v < 0 {
+            // negative literals only come from outside (external constants)
+            format!("{}{ty}", (v.unsigned_abs() - 1).min(i64::MAX as u64))
+        } else {
+            format!("{v}{ty}")
+        }
+    };
+    for k in 0..n {
+        let name = CONST_NAMES[k % CONST_NAMES.len()].to_string();
+        let atom = |p: &mut Prng, names: &Vec<String>| -> String {
+            // what the compiler supports today: earlier constants only in usize chains, signed
+            // literals not at all (both panic, deterministically, in resolve_const_expr_*)
+            match p.below(4) {
+                0 if !names.is_empty() && ty == "usize" => p.pick(names).clone(),
+                3 if unsigned => lit(p),
+                _ => format!("{}::{}", p.pick(PARTIES), p.pick(EXT_NAMES)),
+            }
+        };
+        let a = atom(p, &names);
+        let b = atom(p, &names);
+        let value = match p.below(8) {
+            0..=3 => format!("{a} + {b}"),
+            4 => format!("{a} - {b}"),
+            5 => format!("max({a}, {b}) + {}", atom(p, &names)),
+            6 => format!("min({a}, {b}) + {}", atom(p, &names)),
+            _ => format!("{a} + {b} + {}", atom(p, &names)),
+        };
+        out.push(format!("const {name}: {ty} = {value};"));
+        names.push(name);
+    }
+    let body = names.iter().fold("x".to_string(), |acc, n| format!("{acc} ^ {n}"));
+    out.push(format!("pub fn main(x: {ty}) -> {ty} {{\n    {body}\n}}"));
+    out.join("\n")
+}
+
 /// Small programs for the Bristol / circuit-corruption worlds: few inputs, few hundred gates,
 /// biased to repeated outputs, constant outputs, outputs feeding later gates, several parties.
 pub fn small_program(p: &mut Prng) -> String {
